@@ -5,12 +5,11 @@ by this driver: python -m engine.real.lifecycle_real --one '<json hist>' <out>)"
 import sys, os, json, time, gc, threading, signal, subprocess
 
 
+BIG = 4 << 20          # larger than any pipe buffer
+
+
 def t_ok(x):
     return x * 2
-
-
-def t_exit(x):
-    os._exit(3)
 
 
 def t_sleep(x):
@@ -18,92 +17,113 @@ def t_sleep(x):
     return x
 
 
-def t_nested(x):
-    from loky import ProcessPoolExecutor
-    with ProcessPoolExecutor(max_workers=1) as e:
-        return e.submit(t_ok, x).result(timeout=60)
+def t_task(load, dur, arg):
+    """one task of a lifecycle: lasts `dur`, carries the load"""
+    if load == "nested":
+        from loky import ProcessPoolExecutor
+        with ProcessPoolExecutor(max_workers=1) as e:
+            return e.submit(t_sleep, dur).result(timeout=120)
+    time.sleep(dur)
+    if load == "bigres":
+        return b"r" * BIG
+    return len(arg) if arg is not None else 0
 
 
-def lifecycle(kind):
+def lifecycle(rec):
+    """execute the lifecycle [pool, load, busy, end] of Lifecycle.tla with a real executor"""
     from loky import ProcessPoolExecutor, get_reusable_executor
-    from loky.process_executor import BrokenProcessPool, ShutdownExecutorError
-    if kind == "plain_clean":
-        e = ProcessPoolExecutor(max_workers=2)
-        assert [f.result(60) for f in [e.submit(t_ok, i) for i in range(4)]] == [0, 2, 4, 6]
-        e.shutdown(wait=True)
-    elif kind == "plain_ctx":
-        with ProcessPoolExecutor(max_workers=2) as e:
-            list(e.map(t_ok, range(5)))
-    elif kind == "plain_nowait":
-        e = ProcessPoolExecutor(max_workers=2)
-        fs = [e.submit(t_ok, i) for i in range(4)]
-        e.shutdown(wait=False)
-        [f.result(60) for f in fs]
-        t = e._executor_manager_thread
-        if t is not None:
-            t.join(60)
-    elif kind == "plain_kill":
-        e = ProcessPoolExecutor(max_workers=2)
-        fs = [e.submit(t_sleep, 30) for i in range(3)]
-        time.sleep(0.3)
-        e.shutdown(wait=True, kill_workers=True)
-    elif kind == "plain_broken":
-        e = ProcessPoolExecutor(max_workers=2)
-        fs = [e.submit(t_ok, 1), e.submit(t_exit, 1), e.submit(t_ok, 2)]
+    pool, load, busy, end = rec["pool"], rec["load"], rec["busy"], rec["end"]
+    W = 2
+    kw = dict(max_workers=W)
+    if end == "timeout":
+        kw["timeout"] = 0.2
+    make = ProcessPoolExecutor if pool == "plain" else get_reusable_executor
+    e = make(**kw)
+    arg = (b"a" * BIG) if load == "bigarg" else None
+    e.submit(t_ok, 1).result(60)                       # the workers exist
+    killing = end in ("kill", "crash", "replace_kill")
+    fs = []
+    if busy == "idle":
+        fs = [e.submit(t_task, load, 0, arg) for _ in range(3)]
+        [f.result(120) for f in fs]
+    else:
+        dur = 30 if killing else 0.4
+        fs = [e.submit(t_task, load, dur, arg) for _ in range(W)]
+        # every worker is inside a task (for "nested": has started its own executor and worker)
+        t0 = time.time()
+        while time.time() - t0 < 30:
+            if all(f.running() for f in fs) and (load != "nested" or grandchildren(e) >= W):
+                break
+            time.sleep(0.02)
+        time.sleep(0.2)
+        if busy == "queued":
+            fs += [e.submit(t_task, load, 0, arg) for _ in range(3)]
+            time.sleep(0.2)
+
+    def collect():
         for f in fs:
             try:
-                f.result(60)
-            except BrokenProcessPool:
+                f.result(120)
+            except BaseException:
                 pass
+
+    if end == "wait":
         e.shutdown(wait=True)
-    elif kind == "plain_timeout":
-        e = ProcessPoolExecutor(max_workers=2, timeout=0.2)
-        e.submit(t_ok, 1).result(60)
+    elif end == "ctx":
+        with e:
+            pass
+    elif end == "nowait":
+        e.shutdown(wait=False)
+        collect()
+        t = e._executor_manager_thread
+        if t is not None:
+            t.join(120)
+    elif end == "kill":
+        e.shutdown(wait=True, kill_workers=True)
+    elif end == "crash":
+        os.kill(sorted(e._processes)[0], signal.SIGKILL)
+        collect()
+        e.shutdown(wait=True)
+    elif end == "timeout":
         time.sleep(0.8)
         e.submit(t_ok, 2).result(60)
         e.shutdown(wait=True)
-    elif kind == "plain_cancel":
-        e = ProcessPoolExecutor(max_workers=1)
-        fs = [e.submit(t_sleep, 0.2)] + [e.submit(t_ok, i) for i in range(8)]
-        for f in fs[3:]:
+    elif end == "cancel":
+        for f in fs[W:]:
             f.cancel()
         e.shutdown(wait=True)
-    elif kind == "reuse_same":
-        e = get_reusable_executor(max_workers=2)
-        e.submit(t_ok, 1).result(60)
-        e2 = get_reusable_executor(max_workers=2)
-        e2.submit(t_ok, 1).result(60)
-        e2.shutdown(wait=True)
-    elif kind == "reuse_resize":
-        e = get_reusable_executor(max_workers=2)
-        e.submit(t_ok, 1).result(60)
+    elif end == "resize":
         e = get_reusable_executor(max_workers=3)
         e.submit(t_ok, 1).result(60)
         e = get_reusable_executor(max_workers=1)
         e.submit(t_ok, 1).result(60)
         e.shutdown(wait=True)
-    elif kind == "reuse_broken":
-        e = get_reusable_executor(max_workers=2)
-        try:
-            e.submit(t_exit, 1).result(60)
-        except BrokenProcessPool:
-            pass
-        e = get_reusable_executor(max_workers=2)
+    elif end == "replace_kill":
+        # other arguments than the running instance: it is shut down with kill_workers=True and replaced
+        e = get_reusable_executor(max_workers=W, timeout=25, kill_workers=True)
         e.submit(t_ok, 1).result(60)
         e.shutdown(wait=True)
-    elif kind == "reuse_kill":
-        e = get_reusable_executor(max_workers=2)
-        fs = [e.submit(t_sleep, 30) for _ in range(2)]
-        time.sleep(0.3)
-        e = get_reusable_executor(max_workers=2, kill_workers=True)
-        e.submit(t_ok, 1).result(60)
-        e.shutdown(wait=True)
-    elif kind == "nested":
-        with ProcessPoolExecutor(max_workers=1) as e:
-            assert e.submit(t_nested, 3).result(120) == 6
     else:
-        raise AssertionError(kind)
-    e = None
+        raise AssertionError(end)
+    collect()
+    fs = e = None
+
+
+def grandchildren(e):
+    """number of processes whose parent is a worker of e"""
+    pids = set(e._processes)
+    n = 0
+    for d in os.listdir("/proc"):
+        if not d.isdigit():
+            continue
+        try:
+            st = open("/proc/%s/stat" % d).read()
+            rest = st[st.rindex(")") + 2:].split()
+            if int(rest[1]) in pids and "resource_tracker" not in open("/proc/%s/cmdline" % d).read():
+                n += 1
+        except (OSError, ValueError):
+            continue
+    return n
 
 
 def children():
@@ -170,6 +190,7 @@ def main():
     for i, line in enumerate(open(inp)):
         h = json.loads(line)
         of = outp + ".%d" % i
+        t0 = time.time()
         p = subprocess.Popen([sys.executable, "-m", "engine.real.lifecycle_real", "--one", json.dumps(h["hist"]), of, str(reps)],
                              stdout=subprocess.DEVNULL, stderr=open(outp + ".%d.err" % i, "w"), start_new_session=True)
         try:
@@ -185,6 +206,7 @@ def main():
         else:
             r = dict(hist=h["hist"], error=open(outp + ".%d.err" % i).read()[-1500:], rc=p.returncode)
         r["i"] = h["i"]
+        r["seconds"] = round(time.time() - t0, 1)
         res.append(r)
     json.dump(res, open(outp, "w"))
 
